@@ -51,7 +51,7 @@ ASSUMPTIONS = [
 BUDGET = {"quick": 60, "thorough": 480}
 NCASES = {"quick": 1600, "thorough": 40000}
 CASE_TIMEOUT = 40.0
-FLOORS = {"quick": {"case_held": 200, "groups_compared": 300, "corpus_held": 40}, "thorough": {"case_held": 5000, "groups_compared": 8000, "corpus_held": 400}}
+FLOORS = {'quick': {'case_held': 200, 'groups_compared': 300, 'corpus_held': 40}, 'thorough': {'case_held': 5000, 'groups_compared': 8000, 'corpus_held': 400, 'suite:compute_form_data:held': 25}}
 OPTS = ["do_apply_function_pullbacks", "do_apply_integral_scaling", "do_apply_geometry_lowering", "do_cancel_jacobian_products",
         "do_apply_default_restrictions", "do_apply_restrictions", "do_estimate_degrees", "do_append_everywhere_integrals",
         "do_replace_functions", "complex_mode", "do_remove_component_tensors"]
@@ -395,3 +395,15 @@ def minimal_options(form, opts, pieces, itype, k, cell, gdim, cplx, rng):
             cur = trial
     left = [o for o in OPTS if cur.get(o) and o != "complex_mode"]
     return "+".join(left) if left else "no-options"
+
+
+# ---- additional workload (thorough tier): the repository's own test-suite with this property's passes monitored
+EXTRA_JOBS = {"thorough": ["suite"]}
+SUITE_TARGETS = ['compute_form_data', 'apply_integral_scaling']
+
+
+def extra_suite(ctx):
+    """Every call the repository's tests make to the monitored passes is judged by the same value oracle (vf/suitemon.py)."""
+    from ..suite_driver import run_suite
+
+    run_suite(ctx, SUITE_TARGETS, "C01")
